@@ -148,14 +148,30 @@ def slab(name, facet, layers, pbc_z, rng, min_lateral=2 * MAX_CELL + 0.5, extra=
     return s
 
 
-def add_adsorbates(s, n_ads, species, rng):
-    """foreign atoms on top of surface atoms at bonding height"""
+def add_adsorbates(s, n_ads, species, rng, placement="random"):
+    """foreign atoms on top of surface atoms at bonding height.  placement "half_a" / "half_b" / "half_diag" (two adsorbates):
+    the second one sits on the top atom half a lateral cell vector (or half the lateral diagonal) away from the first -
+    the pair is then commensurate with the slab lattice.  Returns None if the slab has no such pair of top sites."""
     from ase import Atom
     from ase.data import atomic_numbers, covalent_radii
+    from ase.geometry import find_mic
 
     top_z = s.positions[:, 2].max()
     tops = [i for i in range(len(s)) if s.positions[i, 2] > top_z - 0.3]
-    chosen = rng.choice(tops, n_ads, replace=False)
+    if placement == "random" or n_ads != 2:
+        chosen = rng.choice(tops, n_ads, replace=False)
+    else:
+        cell = s.cell[:]
+        v = {"half_a": 0.5 * cell[0], "half_b": 0.5 * cell[1], "half_diag": 0.5 * (cell[0] + cell[1])}[placement]
+        first = int(rng.choice(tops))
+        second = None
+        for j in tops:
+            d, _ = find_mic(s.positions[j] - s.positions[first] - v, cell, pbc=[True, True, False])
+            if np.linalg.norm(d) < 0.05:
+                second = j
+        if second is None or second == first:
+            return None
+        chosen = [first, second]
     ads = []
     for i in chosen:
         h = covalent_radii[atomic_numbers[species]] + covalent_radii[s.numbers[i]]
@@ -200,15 +216,22 @@ def c02_descriptors(tier):
         for fi, f in enumerate(facets):
             if tier == "quick" and (k + fi) % 3:
                 continue
-            out.append({"name": name, "sym": sym, "form": "slab", "facet": f, "layers": 3 + (k + fi) % 2, "pbc_z": bool((k + fi) % 2),
-                        "noise": [0, 0.02, 0.05][(k + fi) % 3], "i": k * 10 + fi})
+            m = k + fi  # attributes from different digits of m: the quick tier (m % 3 == 0) meets every layer count, pbc and noise
+            out.append({"name": name, "sym": sym, "form": "slab", "facet": f, "layers": 3 + (m // 3) % 2, "pbc_z": bool((m // 6) % 2),
+                        "noise": [0, 0.02, 0.05][(m // 2) % 3], "i": k * 10 + fi})
     for ci, name in enumerate(comps):
         out.append({"name": name, "sym": "compound", "form": "bulk", "noise": [0, 0.02, 0.05][ci % 3], "i": 1000 + ci})
         for fi, f in enumerate([(1, 0, 0), (1, 1, 0)] if name not in ("ZnO", "AlN") else [(0, 0, 1)]):
             if tier == "quick" and (ci + fi) % 2:
                 continue
-            out.append({"name": name, "sym": "compound", "form": "slab", "facet": f, "layers": 3, "pbc_z": bool((ci + fi) % 2),
-                        "noise": [0, 0.02][(ci + fi) % 2], "i": 2000 + ci * 10 + fi})
+            out.append({"name": name, "sym": "compound", "form": "slab", "facet": f, "layers": 3, "pbc_z": bool(((ci + fi) // 2) % 2),
+                        "noise": [0, 0.02][ci % 2], "i": 2000 + ci * 10 + fi})
+    # inputs of recorded findings stay explored under their own descriptor (known_findings.json identifies them by it)
+    if tier == "thorough":
+        ci = comps.index("TiO2")
+        reg = {"name": "TiO2", "sym": "compound", "form": "slab", "facet": (1, 1, 0), "layers": 3, "pbc_z": True, "noise": 0.02, "i": 2000 + ci * 10 + 1}
+        if reg not in out:
+            out.append(reg)
     return out
 
 
